@@ -1,5 +1,6 @@
 import UF.Props.C04Text
 import UF.Props.C04Perm
+import UF.Props.C04Wide
 import UF.Props.C07Text
 import UF.Props.C08Engine
 import UF.Props.C08Order
